@@ -353,7 +353,7 @@ theorem qsim_extendFunctionEnv {P : Qp} {s t : St} (hR : StRq P s t) (f : FuncVa
   refine SimQ.bind (qsim_newFrame hR ?_ ?_) ?_
   · have hnd : ∀ n, ¬ P.D t.frames.size n := fun n h => absurd (hR.dlt _ n h) (by have := hR.n0; omega)
     exact ⟨rfl, rfl, rfl, rfl, fun _ _ => rfl, fun _ _ _ h => (by cases h), fun n h => absurd h (hnd n),
-      fun _ => ⟨rfl, rfl⟩, fun h => absurd h (by have := hR.n0; omega), (by simp only [hcfr.localFunc])⟩
+      fun _ => ⟨rfl, rfl⟩, fun h => absurd h (by have := hR.n0; omega), (by simp only [hcfr.localFunc]), fun n h => absurd h (hnd n)⟩
   · refine ⟨?_, fun k e n h => by cases h⟩
     intro o ho
     cases ho
